@@ -55,6 +55,11 @@ fn main() {
             for (i, (cap, extra)) in large.iter().enumerate() {
                 if i as u64 % args.nshards.max(1) == args.shard { c18::large_capacity_case(*cap, *extra, &mut rep); }
             }
+            // capacities that can never be reached (an "unbounded" table, boundaries of the signed and 32-bit ranges)
+            let huge: [usize; 12] = [usize::MAX, usize::MAX - 1, isize::MAX as usize, isize::MAX as usize + 1, (1usize << 63) + 12345, 1 << 62, 1 << 32, (1 << 32) + 1, u32::MAX as usize, 1 << 31, i32::MAX as usize, (i32::MAX as usize) + 1];
+            for (i, cap) in huge.iter().enumerate() {
+                if (i as u64 + 3) % args.nshards.max(1) == args.shard { c18::unreachable_capacity_case(*cap, 3000, &mut rep); }
+            }
         }
         other => {
             eprintln!("unknown monitor {:?}", other);
